@@ -156,6 +156,8 @@ func Specials() []string {
 		"<<<A\nx {$a->b} ${c} $d[1]\nA\n", "b<<<A\nx\nA\n", "<<<A\nxA\nA\n", "<<<A\nx\\$a \\{$b}\nA\n", "<<<A\n{$a[<<<B\ny\nB\n]}\nA\n",
 		// text that looks like an open or close tag inside string-like nodes (the printer decides its mode from chunk text)
 		"\"<?xml version=$v ?>\"", "\"$v ?>\"", "\"?>$v\"", "\"$v ?>\n\"", "\"x ?>\n$v<?php \"", "`php -r $v ?>`", "<<<A\n$v ?>\nA\n", "<<<A\n<?php $v\n?>\nA\n", "<<<'A'\nx ?>\nA\n", "'?>'", "'<?php '", "\"{$v}?>\"", "\"$v<?=\"",
+		// member, method and variable names given by an expression in braces
+		"$o->{$n[0]}", "$o->{$n[0]}()", "$o->{$n->m}", "$o->{'a'}", "$o->{$a . $b}", "$o->{$n[0]}[1]", "A::{$n[0]}()", "$o::{$n}()", "${$v[0]}", "${$v->p}", "${'a' . $b}", "$$v[0]", "$o->$n[0]", "${$v}[0]", "$o->{$n}[0]",
 		"__LINE__", "__FILE__", "__DIR__", "__FUNCTION__", "__CLASS__", "__TRAIT__", "__METHOD__", "__NAMESPACE__", "__line__",
 		"(int)$a", "( int )$a", "(INTEGER)$a", "(bool)$a", "(boolean)$a", "(float)$a", "(double)$a", "(real)$a", "(string)$a", "(binary)$a", "(array)$a", "(object)$a", "(unset)$a", "(\tint\t)$a",
 		"TRUE", "Null", "foo", "\\foo", "namespace\\foo", "Foo\\Bar", "NAMESPACE\\foo",
@@ -174,6 +176,21 @@ func Specials() []string {
 				out = append(out, fmt.Sprintf(tmpl, lit))
 			}
 		}
+	}
+	// whole programs: declarations nested in declarations (one carrier per kind of clause must not be shared between the
+	// outer and the inner declaration), long tokens and long data
+	long := strings.Repeat("0123456789abcdef", 20)
+	for _, p := range []string{
+		"class A extends B implements I, J { function f() { return new class extends C implements K { function g() { return new class extends D {}; } }; } }",
+		"class A extends B { function f() { class E extends F {} interface G extends H {} return 1; } }",
+		"interface I extends J, K { const C = 1; } class A implements I { function f() { interface L extends M {} } }",
+		"function f() { function g() { function h() {} } class A { function m() { function k() {} } } }",
+		"trait T { function f() { return new class { use U { a as b; } }; } }",
+		"$f = function () use ($a) { return function () use ($b) { return fn($c) => fn($d) => $c + $d; }; };",
+		"$a; __halt_compiler();" + long, "__halt_compiler();\n" + long + "\n" + long, "$s = '" + long + "'; $t = \"" + long + " $v " + long + "\"; /* " + long + " */ $u = <<<A\n" + long + "\nA;\n",
+		"?>" + long + "<?php $a; ?>\n" + long,
+	} {
+		out = append(out, "<?php "+p)
 	}
 	return out
 }
